@@ -5,6 +5,7 @@
 -/
 import RapidModel.Generated.CallOrders
 import RapidProofs.Shrink
+import RapidProofs.TranslatedFuzzEq
 
 namespace Rapid.C13
 
@@ -75,5 +76,30 @@ example : wordsOfBytes [1, 2, 0, 0, 0, 0, 0, 0, 3] = [513, 3] := by
 /-- `checkFuzz`: decode loop, fresh T on the buffer, one `checkOnce`, then the outcome switch -/
 theorem checkFuzz_order_source :
     Rapid.Generated.order_checkFuzz = ["call tb.Helper", "stmt", "for", "call newT", "call checkOnce", "stmt"] := by decide
+
+/-! ### the translated source -/
+
+/-- **the statements of `checkFuzz` that turn the input bytes into the buffer of the bit stream, as translated
+    from /repo's engine.go on every run, compute `wordsOfBytes`** — for every input (shorter than 2^63 bytes,
+    as every Go slice is): the loop ends, nothing panics, and the buffer is the sequence of little-endian
+    words of the input, the last one padded with zero bytes (a scratch array that keeps bytes of the previous
+    word, a dropped tail, another byte order all change the translated loop and break this proof) -/
+theorem source_fuzz_words (input : List UInt8) (fuel : Nat) (hsz : input.length < 2 ^ 63) (hf : input.length < fuel) :
+    Rapid.Translated.checkFuzz_words input fuel = .ok (wordsOfBytes input) :=
+  tr_checkFuzz_words input fuel hsz hf
+
+/-- … hence the fuzz target decides by the test case on the words the **source** computes -/
+theorem source_faithful (p : Prog) (input : List UInt8) (fuel : Nat) (ws : List UInt64)
+    (hsz : input.length < 2 ^ 63) (hf : input.length < fuel)
+    (hw : Rapid.Translated.checkFuzz_words input fuel = .ok ws) :
+    checkFuzz p input =
+      match (checkOnce p (.buf ws) TS.fresh).err with
+      | none => .pass
+      | some e => if e.isInvalid then .skip else .fail e := by
+  rw [source_fuzz_words input fuel hsz hf] at hw
+  cases hw
+  rfl
+
+example : Rapid.Translated.checkFuzz_words [1, 2, 0, 0, 0, 0, 0, 0, 3] 5 = .ok [513, 3] := by rfl
 
 end Rapid.C13
